@@ -44,6 +44,7 @@ type scenSpec struct {
 	Compression int    `json:"compression"`
 	Rev         int    `json:"revision"`
 	Telemetry   bool   `json:"telemetry"`
+	Otel        bool   `json:"otel,omitempty"`
 }
 
 type scenOutcome struct {
@@ -72,7 +73,7 @@ var errCallbackFault = errors.New("callback: injected failure")
 
 // runScenario executes one scenario with one fault on a fresh connection.
 func runScenario(sp scenSpec, f fault, rt time.Duration) (*scenOutcome, error) {
-	o := simOpts{compression: ch.Compression(sp.Compression), serverRev: sp.Rev, readTimeout: rt}
+	o := simOpts{compression: ch.Compression(sp.Compression), serverRev: sp.Rev, readTimeout: rt, otel: sp.Otel}
 	out := &scenOutcome{gateLen: map[string][]int{}, cancelAtWritten: -1}
 	out.goroutinesBefore = runtime.NumGoroutine()
 	sc, err := connectSim(o)
@@ -201,6 +202,7 @@ func runScenario(sp scenSpec, f fault, rt time.Duration) (*scenOutcome, error) {
 		phase1 = append(phase1, enc.dataPacket(1, scols, 0))
 		if sp.Telemetry {
 			perFlush = append(perFlush, enc.progress(1, 2, 3, 1, 2, 3))
+			perFlush = append(perFlush, telemetry()...)
 		}
 		phase2 = append(phase2, telemetry()...)
 		phase2 = append(phase2, enc.endOfStream())
@@ -341,6 +343,17 @@ func runScenario(sp scenSpec, f fault, rt time.Duration) (*scenOutcome, error) {
 					waitFor(excSeen, 300*time.Millisecond)
 					time.Sleep(3 * time.Millisecond) // let the failing receiver return and the group cancel
 				}
+			case "foreign-close":
+				// a goroutine that is not part of the call closes the client and looks at its state
+				var fwg sync.WaitGroup
+				fwg.Add(1)
+				go func() {
+					defer fwg.Done()
+					_ = sc.client.IsClosed()
+					_ = sc.client.Close()
+					_ = sc.client.IsClosed()
+				}()
+				fwg.Wait()
 			case "cancel":
 				w, _, _, _ := conn.snapshot()
 				out.cancelAtWritten = len(w) - sc.helloLen
